@@ -26,6 +26,25 @@ def _mkscratch():
     return tempfile.mkdtemp(prefix="verif-", dir=base)
 
 
+_POOL_TIMEOUT_S = 3600    # a dead worker must not hang the driver for ever
+
+
+def _safe(fn):
+    """Pool workers must only raise picklable exceptions (a ConductorError with keyword-only
+    constructor arguments cannot be unpickled in the parent and would hang the pool)."""
+    import functools
+    import traceback
+
+    @functools.wraps(fn)
+    def wrapper(job):
+        try:
+            return fn(job)
+        except BaseException:
+            raise RuntimeError("harness worker %s crashed on job %r:\n%s"
+                               % (fn.__name__, job, traceback.format_exc())) from None
+    return wrapper
+
+
 # --------------------------------------------------------------------------- accumulator
 def _size(inp):
     text = json.dumps(inp, default=str, sort_keys=True)
@@ -165,15 +184,17 @@ def _index_template(scratch, rows):
     """A committed real version index holding `rows`, built once per distinct row set and copied
     into every scenario (sqlite commits fsync; building one per scenario dominates the run)."""
     import conductor.execution.version_index as vi
-    from conductor.task_identifier import TaskIdentifier
     key = (str(scratch), tuple(rows))
     if key not in _INDEX_TEMPLATES:
         path = scratch / "templates" / ("t%d" % len(_INDEX_TEMPLATES)) / "version_index.sqlite"
-        index = vi.VersionIndex.create_or_load(path)
-        for ident, ts in rows:
-            index.insert_output_version(TaskIdentifier.from_str(ident), vi.Version(ts, None, False))
-        index.commit_changes()
+        import sqlite3
+        index = vi.VersionIndex.create_or_load(path)      # the real schema / format version
         index._conn.close()
+        conn = sqlite3.connect(str(path))                 # rows by explicit column names (fixture)
+        conn.executemany("INSERT INTO version_index (task_identifier, timestamp, git_commit_hash, has_uncommitted_changes) VALUES (?, ?, ?, ?)",
+                         [(ident, ts, None, 0) for ident, ts in rows])
+        conn.commit()
+        conn.close()
         _INDEX_TEMPLATES[key] = path
     return _INDEX_TEMPLATES[key]
 
@@ -278,6 +299,7 @@ def _crash_class(status):
     return "gc-crashes-" + status.split(":")[0]
 
 
+@_safe
 def _gc_worker(job):
     shard, n_shards, n_entries = job
     t_begin = time.time()
@@ -460,6 +482,7 @@ def _describe(path):
     return ("absent",)
 
 
+@_safe
 def _combine_worker(job):
     shard, n_shards, n_deps_list = job
     t_begin = time.time()
@@ -582,6 +605,7 @@ def _combine_worker(job):
     return a, time.time() - t_begin
 
 
+@_safe
 def _from_cwd_worker(_):
     t0 = time.time()
     return _from_cwd(), time.time() - t0
@@ -601,16 +625,16 @@ def run(tier, seed):
         comb_job = pool.map_async(_combine_worker, [(i, n_shards, [1, 2, 3])
                                                     for i in range(n_shards)], chunksize=1)
         cwd_job = pool.map_async(_from_cwd_worker, [0])
-        for d, r, s, _w in gc_job.get():
+        for d, r, s, _w in gc_job.get(_POOL_TIMEOUT_S):
             dele.merge(d)
             dry.merge(r)
             same.merge(s)
         wall_gc = time.time() - t0
         wall_comb = 0.0
-        for c, w in comb_job.get():
+        for c, w in comb_job.get(_POOL_TIMEOUT_S):
             comb.merge(c)
             wall_comb = max(wall_comb, w)
-        cwd_acc, wall_cwd = cwd_job.get()[0]
+        cwd_acc, wall_cwd = cwd_job.get(_POOL_TIMEOUT_S)[0]
     entry_labels = [e[0] for e in GC_ENTRIES[:n_entries]]
     gc_scope = ("all %d subsets of %d cond-out entries %s in a scratch project with a real sqlite version index"
                 % (2 ** n_entries, n_entries, json.dumps(entry_labels)))
